@@ -424,6 +424,84 @@ def _box3_warm_chunk(params, lo, hi):
     return r
 
 
+def medium_knapsacks():
+    """(name, values, weights, capacity, maximise): 0/1 knapsacks (maximise value under a weight limit) and covering
+    problems (minimise cost over a demand) with 10-24 binaries, data from fixed formulas; optimum by plain integer DP"""
+    out = []
+    for n, a, b, m in ((10, 3, 7, 11), (12, 5, 3, 13), (16, 7, 5, 17), (20, 3, 11, 19), (24, 5, 7, 23)):
+        vals = [2 + (a * i * i + b * i) % m for i in range(n)]
+        wts = [1 + (b * i * i + a * i + 1) % (m - 2) for i in range(n)]
+        for frac in (3, 2):
+            out.append((f"knapsack{n}_cap_third" if frac == 3 else f"knapsack{n}_cap_half", vals, wts, sum(wts) // frac, True))
+            out.append((f"cover{n}_third" if frac == 3 else f"cover{n}_half", vals, wts, sum(wts) // frac, False))
+    return out
+
+
+def _dp_knapsack(vals, wts, cap, maximise):
+    if maximise:  # max value, weight <= cap
+        best = [0] * (cap + 1)
+        for v, w in zip(vals, wts):
+            for c in range(cap, w - 1, -1):
+                best[c] = max(best[c], best[c - w] + v)
+        return best[cap]
+    big = 10**9  # min cost, weight >= cap
+    best = [0] + [big] * cap
+    for v, w in zip(vals, wts):
+        for c in range(cap, 0, -1):
+            best[c] = min(best[c], best[max(0, c - w)] + v)
+    return best[cap]
+
+
+def _medium_chunk(params, lo, hi):
+    from solvor.milp import solve_milp
+    from solvor.types import Status
+
+    cases = medium_knapsacks()
+    r = new_result()
+    for idx in range(lo, hi):
+        name, vals, wts, cap, maximise = cases[idx // 2]
+        heur = idx % 2 == 0
+        n = len(vals)
+        A = [[1.0 if a == j else 0.0 for a in range(n)] for j in range(n)] + [[float(w) if maximise else -float(w) for w in wts]]
+        b = [1.0] * n + [float(cap) if maximise else -float(cap)]
+        want = _dp_knapsack(vals, wts, cap, maximise)
+        kw = {} if heur else {"heuristics": False}
+        wit = {"medium": name, "config": kw}
+        how = f"solve_milp({name}: {n} binaries, {'max value, weight <= ' if maximise else 'min cost, weight >= '}{cap}, {kw})"
+        r["n"] += 1
+        r["nontrivial"] += 1
+        try:
+            res = gcall(lambda: solve_milp([float(v) for v in vals], A, b, list(range(n)), minimize=not maximise, **kw), 120.0, 1_500_000_000)
+        except Exception as ex:  # noqa: BLE001
+            r["outcomes"]["medium:raised"] += 1
+            r["violations"].append(viol("solve_milp", "raised", wit, f"{how}: {type(ex).__name__}: {str(ex)[:120]}"))
+            continue
+        r["outcomes"][f"medium:{res.status.name}"] += 1
+        errs = []
+        if res.status in (Status.OPTIMAL, Status.FEASIBLE):
+            x = res.solution
+            if any(abs(v - round(v)) > 1e-6 or v < -1e-6 or v > 1 + 1e-6 for v in x):
+                errs.append(("not_integral", f"solution {x} is not a 0/1 point"))
+            else:
+                wsum = sum(w * round(v) for w, v in zip(wts, x))
+                vsum = sum(v_ * round(v) for v_, v in zip(vals, x))
+                if (wsum > cap) if maximise else (wsum < cap):
+                    errs.append(("constraint_violated", f"total weight {wsum} against the limit {cap}"))
+                if abs(vsum - res.objective) > 1e-6:
+                    errs.append(("objective_not_cx", f"objective {res.objective}, c.x = {vsum}"))
+                if res.status == Status.OPTIMAL and abs(res.objective - want) > 1e-6:
+                    errs.append(("not_optimal", f"status OPTIMAL with objective {res.objective}, the optimum by integer DP is {want}"))
+                if (res.objective > want + 1e-6) if maximise else (res.objective < want - 1e-6):
+                    errs.append(("better_than_optimum", f"objective {res.objective} beats the optimum {want}"))
+        elif res.status in (Status.INFEASIBLE, Status.UNBOUNDED):
+            errs.append(("wrong_infeasible" if res.status == Status.INFEASIBLE else "wrong_unbounded", f"status {res.status.name} for a feasible bounded problem with optimum {want}"))
+        for kind, detail in errs:
+            r["violations"].append(viol("solve_milp", kind, wit, f"{how}: {detail}"))
+        if not r["samples"]:
+            r["samples"].append(wit)
+    return r
+
+
 def _binary_chunk(params, lo, hi):
     """3 variables, rows x_j<=1 (j=0..2) + one general row a.x<=b0 (+ optionally a second); all integer.
     index = ((a_code*4 + b0)*64 + c_code)*2 + minimize ; second row from params"""
@@ -594,6 +672,7 @@ def jobs(tier, seed):
     else:
         kn = ("knap", (2, 3, 4), (7, 9, 11), (2, 3, 4))
         js.append(Job("int4_knapsack_row_234", 81 * 3 * 81 * 2, _int4_chunk, kn, describe="4 integers in 0..2, one knapsack row with weights over {2,3,4}, K in {7,9,11}, values over {2,3,4}, maximise, heuristics on/off (incumbents found while dominated and non-dominated nodes wait in the queue)"))
+    js.append(Job("medium_knapsacks_by_dp", len(medium_knapsacks()) * 2, _medium_chunk, None, chunk=1, describe="0/1 knapsacks and covering problems with 10-24 binaries (data from fixed formulas, capacity a third / half of the total weight), heuristics on/off; optimum by plain integer DP"))
     js.append(Job("int2_box3_warm_starts", 6**4 * 4 * 9, _box3_warm_chunk, None, describe="2 integer variables in 0..3, two general rows over {-4,-2,-1,1,2,4} with right-hand sides {-2,2}, costs over {-2,1,4}, minimise; no warm start and every integer point of the box as warm start"))
     js.append(Job("int2_lower_bound_rows", 4 * 9 * 7 * 2 * 16 * 2, _lbrow_chunk, None, describe="2 variables, each with a single-variable row x_j <= 1 or -x_j <= -1 plus x_j <= 3, one general row a.x <= b0 or a.x >= b0 with a over {1,2,3}, b0 in 0..6, costs over {1..4}; every integer subset, min/max, heuristics on/off"))
     js.append(Job("binary3_one_row", 64 * 4 * 64 * 2, _binary_chunk, None, describe="3 variables with explicit x_j<=1 rows + one general row; all-integer and mixed; rounding heuristic, LNS seeds, limits, warm starts"))
@@ -610,6 +689,11 @@ def jobs(tier, seed):
 
 def replay(v):
     w = v["witness"]
+    if w.get("medium"):
+        names = [c[0] for c in medium_knapsacks()]
+        i = names.index(w["medium"]) * 2 + (0 if not w.get("config") else 1)
+        r = _medium_chunk(None, i, i + 1)
+        return r["violations"][0] if r["violations"] else None
     geo = Geometry(w["A"], w["b"], len(w["c"]))
     kw = dict(w["config"])
     if w.get("first_call_b"):
